@@ -170,7 +170,10 @@ def replay(args: list[Any], c: dict[str, Any]) -> dict[str, Any]:
             "model_says": run_model(c, tr, nm)}
 
 
-if CFG:
-    run_model(CFG, [0, 1, 0, 1, 0][:CFG["n"]], [0, 1, 0])
-else:
-    run_model({"n": 4, "T": 2}, [0, 1, 0, 1], [0, 1, 0])
+try:  # warm-up
+    if CFG:
+        run_model(CFG, [0, 1, 0, 1, 0][:CFG["n"]], [0, 1, 0])
+    else:
+        run_model({"n": 4, "T": 2}, [0, 1, 0, 1], [0, 1, 0])
+except Exception:  # noqa  (a failing warm-up is reported by the conditions themselves)
+    pass
